@@ -631,6 +631,10 @@ func (x *Exec) concat(a, b Term, env *Env) Term {
 	c := x.W.Fresh("cat", a.Sort)
 	c.GoT = a.GoT
 	x.W.Facts = append(x.W.Facts, Eq(c, x.W.MkSeq(a.Sort, arr, IntLit(0), Arith("+", la, lb))).S)
+	// concatenation is a function of its operands (strcat in contracts is this same symbol)
+	cat := "strcat_" + sanitize(string(a.Sort))
+	x.W.DeclareFun(cat, []Sort{a.Sort, b.Sort}, a.Sort)
+	x.W.AddFact(env.pc, Eq(c, T("("+cat+" "+a.S+" "+b.S+")", a.Sort)))
 	x.W.nfresh++
 	q := fmt.Sprintf("q!%d", x.W.nfresh)
 	qi := T(q, SInt)
